@@ -15,19 +15,21 @@ use std::{
 use compio_buf::BufResult;
 use compio_driver::{
     DriverType, Key, Proactor, ProactorBuilder, PushEntry, SharedFd,
-    op::{Asyncify, Recv, RecvFlags, Send, SendFlags},
+    op::{Asyncify, Recv, RecvFlags, Send, SendFlags, SendZc},
     verif,
 };
 use verif_harness::*;
 
 type RecvOp = Recv<Vec<u8>, SharedFd<UnixStream>>;
 type SendOp = Send<Vec<u8>, SharedFd<UnixStream>>;
+type ZcOp = SendZc<Vec<u8>, SharedFd<UnixStream>>;
 type BlockOp = Asyncify<Box<dyn FnOnce() -> BufResult<usize, u64> + std::marker::Send>, u64>;
 
 enum Slot {
     Recv(Option<Key<RecvOp>>),
     Send(Option<Key<SendOp>>),
     Block(Option<Key<BlockOp>>),
+    Zc(Option<Key<ZcOp>>),
 }
 
 #[derive(Clone, Default)]
@@ -142,13 +144,15 @@ fn run(case: &[u64]) -> Result<Vec<u64>, BadCase> {
                         Slot::Recv(k) => drop(k.take()),
                         Slot::Send(k) => drop(k.take()),
                         Slot::Block(k) => drop(k.take()),
+                Slot::Zc(k) => drop(k.take()),
+                        Slot::Zc(k) => drop(k.take()),
                     }
                 }
             }
             continue;
         };
         match op {
-            1 | 2 | 3 => {
+            1 | 2 | 3 | 12 => {
                 let slot = slots.len() as u64;
                 let mut sr = SlotRes {
                     kind: op,
@@ -173,6 +177,22 @@ fn run(case: &[u64]) -> Result<Vec<u64>, BadCase> {
                                 verif::emit(U_PUSH_READY, slot, 0);
                                 record_recv(&mut sr, res);
                                 slots.push(Slot::Recv(None));
+                            }
+                        }
+                    }
+                    12 => {
+                        let r = a as usize;
+                        if r >= pairs.len() {
+                            return Err(BadCase);
+                        }
+                        let data: Vec<u8> = (0..b as usize).map(|i| (i % 251) as u8).collect();
+                        let o = SendZc::new(pairs[r].0.clone(), data, SendFlags::empty());
+                        match p.push(o) {
+                            PushEntry::Pending(k) => slots.push(Slot::Zc(Some(k))),
+                            PushEntry::Ready(BufResult(res, _)) => {
+                                verif::emit(U_PUSH_READY, slot, 0);
+                                record_plain(&mut sr, res);
+                                slots.push(Slot::Zc(None));
                             }
                         }
                     }
@@ -283,6 +303,21 @@ fn run(case: &[u64]) -> Result<Vec<u64>, BadCase> {
                             }
                         }
                     }
+                    Slot::Zc(k) => {
+                        if let Some(key) = k.take() {
+                            verif::emit(U_POP, i as u64 + (1 << 32), 2);
+                            match p.pop(key) {
+                                PushEntry::Pending(key) => {
+                                    verif::emit(U_POP_RES, i as u64 + (1 << 32), 0);
+                                    *k = Some(key)
+                                }
+                                PushEntry::Ready(BufResult(res, _)) => {
+                                    verif::emit(U_POP_RES, i as u64 + (1 << 32), 1);
+                                    record_plain(&mut results[i], res)
+                                }
+                            }
+                        }
+                    }
                 }
             }
             7 => {
@@ -294,6 +329,8 @@ fn run(case: &[u64]) -> Result<Vec<u64>, BadCase> {
                     Slot::Recv(k) => k.is_some(),
                     Slot::Send(k) => k.is_some(),
                     Slot::Block(k) => k.is_some(),
+            Slot::Zc(k) => k.is_some(),
+                    Slot::Zc(k) => k.is_some(),
                 };
                 if had {
                     verif::emit(U_DROP, i as u64 + (1 << 32), 0);
@@ -301,6 +338,8 @@ fn run(case: &[u64]) -> Result<Vec<u64>, BadCase> {
                         Slot::Recv(k) => drop(k.take()),
                         Slot::Send(k) => drop(k.take()),
                         Slot::Block(k) => drop(k.take()),
+                Slot::Zc(k) => drop(k.take()),
+                        Slot::Zc(k) => drop(k.take()),
                     }
                 }
             }
@@ -334,6 +373,14 @@ fn run(case: &[u64]) -> Result<Vec<u64>, BadCase> {
                             }
                         }
                     }
+                    Slot::Zc(k) => {
+                        if let Some(key) = k.take() {
+                            verif::emit(U_CANCEL, i as u64 + (1 << 32), 0);
+                            if let Some(BufResult(res, _)) = p.cancel(key) {
+                                record_plain(&mut results[i], res);
+                            }
+                        }
+                    }
                 }
             }
             9 => {
@@ -354,6 +401,7 @@ fn run(case: &[u64]) -> Result<Vec<u64>, BadCase> {
                     Slot::Recv(k) => tok!(k),
                     Slot::Send(k) => tok!(k),
                     Slot::Block(k) => tok!(k),
+                    Slot::Zc(k) => tok!(k),
                 }
             }
             10 => {
@@ -363,6 +411,9 @@ fn run(case: &[u64]) -> Result<Vec<u64>, BadCase> {
                             Slot::Recv(k) => k.is_some(),
                             Slot::Send(k) => k.is_some(),
                             Slot::Block(k) => k.is_some(),
+            Slot::Zc(k) => k.is_some(),
+                            Slot::Zc(k) => k.is_some(),
+                    Slot::Zc(k) => k.is_some(),
                         };
                         if had {
                             verif::emit(U_DROP, i as u64 + (1 << 32), 0);
@@ -370,11 +421,26 @@ fn run(case: &[u64]) -> Result<Vec<u64>, BadCase> {
                                 Slot::Recv(k) => drop(k.take()),
                                 Slot::Send(k) => drop(k.take()),
                                 Slot::Block(k) => drop(k.take()),
+                Slot::Zc(k) => drop(k.take()),
+                            Slot::Zc(k) => drop(k.take()),
+                        Slot::Zc(k) => drop(k.take()),
                             }
                         }
                     }
                 }
                 drop(proactor.take());
+            }
+            13 => {
+                // zero-copy send: the byte count is available before the buffer is
+                let i = a as usize;
+                if let Some(Slot::Zc(Some(key))) = slots.get(i) {
+                    if let Some(BufResult(res, _)) = p.pop_multishot(key) {
+                        results[i].first = match res {
+                            Ok(n) => n as u64 + 1,
+                            Err(e) => 1_000_000 + errno_of(&e),
+                        };
+                    }
+                }
             }
             11 => {
                 let r = a as usize;
@@ -393,6 +459,7 @@ fn run(case: &[u64]) -> Result<Vec<u64>, BadCase> {
             Slot::Recv(k) => k.is_some(),
             Slot::Send(k) => k.is_some(),
             Slot::Block(k) => k.is_some(),
+            Slot::Zc(k) => k.is_some(),
         };
         if had {
             verif::emit(U_DROP, i as u64 + (1 << 32), 0);
@@ -400,6 +467,7 @@ fn run(case: &[u64]) -> Result<Vec<u64>, BadCase> {
                 Slot::Recv(k) => drop(k.take()),
                 Slot::Send(k) => drop(k.take()),
                 Slot::Block(k) => drop(k.take()),
+                Slot::Zc(k) => drop(k.take()),
             }
         }
     }
